@@ -28,11 +28,33 @@ def R1_plugin(ctx):
     if len(ggs) != 1:
         raise AnchorMissing("get_grid_search call")
     gg = nosite(deep_strip(tm.call_term(ggs[0].term, ggs[0].bb)))
-    swaps = [c for c in b.calls() if (c.callee or "").endswith("mem::swap")]
-    ctx.check(len(swaps) == 1, "one-replacement", "expected exactly one replacement of the input (mem::swap), found %d" % len(swaps), b.where())
-    if len(swaps) != 1:
+    # the one place where the input query is replaced: mem::swap(&mut replacement, input) or `*input = replacement`
+    swaps = [c for c in b.calls() if (c.callee or "").endswith("mem::swap") or (c.callee or "").endswith("mem::replace")]
+    assigns = []
+    for bb_, blk_ in enumerate(b.blocks):
+        if blk_["cleanup"]:
+            continue
+        for pos_, st_ in enumerate(blk_["stmts"]):
+            if st_["k"] == "assign" and st_["place"]["l"] == 2 and [e["k"] for e in st_["place"]["p"]] == ["deref"]:
+                assigns.append((bb_, pos_, st_))
+    ctx.check(len(swaps) + len(assigns) == 1, "one-replacement", "expected exactly one replacement of the input (mem::swap / assignment), found %d" % (len(swaps) + len(assigns)), b.where())
+    if len(swaps) + len(assigns) != 1:
         return
-    sw = swaps[0]
+
+    class _Site:
+        pass
+    sw = _Site()
+    if swaps:
+        sw.bb, sw.where = swaps[0].bb, swaps[0].where
+        rep = deep_strip(tm.operand(swaps[0].args[1], swaps[0].bb))
+        other = deep_strip(tm.operand(swaps[0].args[0], swaps[0].bb))
+        sw.val = rep if unmut(nosite(other)) == ("arg", 2) else other
+        sw.onto_input = unmut(nosite(other)) == ("arg", 2) or unmut(nosite(rep)) == ("arg", 2)
+    else:
+        bb_, pos_, st_ = assigns[0]
+        sw.bb, sw.where = bb_, (lambda: b.where(bb_))
+        sw.val = deep_strip(tm.rvalue(st_["rv"], bb_, pos_))
+        sw.onto_input = True
     # None => Ok(()) and the swap is not reachable
     sel = None
     for sbb, dt, names, t in switches(b, tm):
@@ -74,10 +96,8 @@ def R1_plugin(ctx):
                     oke = oke or (bool(vals) and all(is_err_value(deep_strip(v)) for _, v in vals))
         ctx.check(oke, "empty-axis=>Err", "an empty option array is not reported as an input error (the query would silently disappear)", b.where(), detail="v.is_empty() => Err")
     # replacement = json!(collect(map(into_iter(MultiSet::from(indices)), closure)))
-    rep = deep_strip(tm.operand(sw.args[1], sw.bb))
-    other = deep_strip(tm.operand(sw.args[0], sw.bb))
-    val = rep if unmut(nosite(other)) == ("arg", 2) else other
-    ctx.check(unmut(nosite(other)) == ("arg", 2) or unmut(nosite(rep)) == ("arg", 2), "replaces-input", "the expansion is not swapped into the input query", sw.where())
+    val = sw.val
+    ctx.check(sw.onto_input, "replaces-input", "the expansion is not swapped into the input query", sw.where())
     maps = [x for x in calls_in(val) if itm(x[1], "map")]
     froms = [x for x in calls_in(val) if "::from{" in x[1] and "MultiSet" in x[1] or x[1].startswith("<" + MS)]
     trunc = [x[1] for x in calls_in(val) if re.search(r"Iterator>?::(take|skip|filter|step_by|dedup|filter_map)$|Itertools::(dedup|unique)", x[1])]
@@ -98,18 +118,23 @@ def R1_plugin(ctx):
     okc = False
     detail = None
     for k in cl:
-        kb = F.bodies.get(k[1])
-        if kb is None:
+        if k[1] not in F.bodies:
             continue
-        ktm = Terms(kb)
-        ims = [c for c in kb.calls() if c.func.get("method") == "index_mut" or (c.callee or "").endswith("::index_mut")]
+        # the closure, its own closures and any helper extracted from it
+        tree = tree_of(F, k[1])
+        ims, nested, obj_sw, keys_used = [], [], [], []
+        for kb in tree:
+            ktm = Terms(kb)
+            mine = [c for c in kb.calls() if c.func.get("method") == "index_mut" or (c.callee or "").endswith("::index_mut")]
+            ims += mine
+            # value = multiset_input[set_idx][val_idx] (two Index::index calls on the option lists)
+            idxs = [c for c in kb.calls() if (c.callee or "").endswith("::index") and ("Vec" in (c.callee or "") or "[T]" in (c.callee or ""))]
+            nested += [c for c in idxs if contains(nosite(deep_strip(ktm.operand(c.args[0], c.bb))), lambda s: (s[0] == "call" and s[1].endswith("::index")) or s[0] == "index")]
+            nested += [1 for x in subterms(nosite(deep_strip(ktm.return_term()))) if x[0] == "index" and contains(x[1], lambda s: s[0] == "index" or (s[0] == "call" and s[1].endswith("::index")))] if not kb.natural_loops() else []
+            obj_sw += [1 for sbb, dt, names, t in switches(kb, ktm) if names and "Object" in names.values()]
+            keys_used += [nosite(deep_strip(ktm.operand(c.args[1], c.bb))) for c in mine]
         if len(ims) < 2:
             continue
-        # value = multiset_input[set_idx][val_idx] (two Index::index calls on the captured option lists)
-        idxs = [c for c in kb.calls() if (c.callee or "").endswith("::index") and "Vec" in (c.callee or "")]
-        nested = [c for c in idxs if contains(nosite(deep_strip(ktm.operand(c.args[0], c.bb))), lambda s: s[0] == "call" and s[1].endswith("::index"))]
-        obj_sw = [1 for sbb, dt, names, t in switches(kb, ktm) if names and "Object" in names.values()]
-        keys_used = [nosite(deep_strip(ktm.operand(c.args[1], c.bb))) for c in ims]
         okc = bool(nested) and bool(obj_sw)
         detail = [short(x)[:60] for x in keys_used]
     ctx.check(okc, "overlay", "each combination is not overlaid with multiset_input[axis][index] (object choices merged, others under the axis key): %s" % detail, b.where(), detail=str(detail))
@@ -121,61 +146,141 @@ def R2_flatten(ctx):
     ctx.rule("C17.R2", "json_array_flatten_in_place: returns early only when no element is an array; otherwise every element of every nested array and every other element is pushed in order and swapped in; non-array input => invariant error. json_array_op applies op to every query, packages failures, then flattens. json_array_flatten rejects non-objects", floor=9)
     b = F.need(OPS + "json_array_flatten_in_place")
     tm = Terms(b)
-    alls = [c for c in b.calls() if c.callee and itm(c.callee, "all")]
-    oka = len(alls) == 1
-    if oka:
-        cl = tm.operand(alls[0].args[1], alls[0].bb)
-        crt = nosite(deep_strip(Terms(F.need(cl[1])).return_term()))
-        is_not_array = crt[0] == "un" and crt[1] == "Not" and crt[2][0] == "call" and crt[2][1].endswith("Value::is_array") and crt[2][2] == (("arg", 2),)
-        verdict = nosite(deep_strip(tm.call_term(alls[0].term, alls[0].bb)))
-        early = False
-        for sbb, dt, names, t in switches(b, tm):
-            d = nosite(deep_strip(dt))
-            if d == verdict:
-                f_, tr_ = bool_targets(t)
-                pushes_after = [c for c in b.calls() if c.callee and c.callee.startswith("std::vec::Vec::<T, A>::push") and c.bb in b.reachable(start=tr_)]
-                early = not pushes_after and all(deep_strip(v) == ("agg", "std::result::Result", "Ok", (("0", ("tuple", ())),)) for _, v in region_value(b, (sbb, tr_)))
-        oka = is_not_array and early
-    ctx.check(oka, "short-circuit", "the early return is not taken exactly when all elements are non-arrays (`all(|v| !v.is_array())` => Ok(()))", b.where(), detail="all(!is_array) => return")
-    pushes = [c for c in b.calls() if c.callee and c.callee.startswith("std::vec::Vec::<T, A>::push")]
-    okp = len(pushes) == 2 and all(innermost_loop(b, c.bb) is not None for c in pushes)
-    if okp:
-        loops = sorted({innermost_loop(b, c.bb)[0]: innermost_loop(b, c.bb) for c in pushes}.values(), key=lambda l: len(l[1]))
-        okp = len(loops) == 2 and loops[0][1] < loops[1][1]
-        # the nested-array push is in the inner loop over that sub-array; the other push only in the outer loop
-        flats = {root_local(b, c.args[0]) for c in pushes}
-        okp = okp and len(flats) == 1
-        for lp in loops:
-            nx = [c for c in b.calls() if c.func.get("method") == "next" and c.bb in lp[1] and innermost_loop(b, c.bb) == lp]
-            recv = deep_strip(tm.operand(nx[0].args[0], nx[0].bb)) if nx else ("undef", 0)
-            okp = okp and bool(nx) and not [x for x in calls_in(recv) if re.search(r"Iterator>?::(take|skip|filter|step_by|rev)$", x[1])]
-    ctx.check(okp, "moves-every-element", "nested arrays' elements and plain elements are not all pushed to one flattened vector in order", b.where(), detail="for v1 {Array => for v2 push; other => push}")
-    swaps = [c for c in b.calls() if (c.callee or "").endswith("mem::swap")]
-    ctx.check(len(swaps) == 1 and unmut(nosite(deep_strip(tm.operand(swaps[0].args[0], swaps[0].bb)))) == ("arg", 1), "swapped-in", "the flattened array is not swapped into the query state", b.where())
-    rows_err = [c for c in b.calls() if c.callee == OPS + "package_invariant_error"]
-    ctx.check(len(rows_err) == 1, "non-array=>invariant-error", "a non-array state is not reported with package_invariant_error", b.where())
+    TOP = ("field", ("variant", ("arg", 1), "Array"), "0")
+    OK_UNIT = ("agg", "std::result::Result", "Ok", (("0", ("tuple", ())),))
+    TRUNC = r"Iterator>?::(take|skip|filter|step_by|rev|take_while|skip_while|filter_map)$"
+    # where the state is replaced: mem::swap(result, &mut flat) or `*result = flat`
+    repl = []
+    for c in b.calls():
+        if (c.callee or "").endswith("mem::swap") or (c.callee or "").endswith("mem::replace"):
+            a0, a1 = clean(tm.operand(c.args[0], c.bb)), clean(tm.operand(c.args[1], c.bb))
+            if ("arg", 1) in (a0, a1):
+                repl.append((c.bb, a1 if a0 == ("arg", 1) else a0, c.where()))
+    for bb_, blk_ in enumerate(b.blocks):
+        if blk_["cleanup"]:
+            continue
+        for pos_, st_ in enumerate(blk_["stmts"]):
+            if st_["k"] == "assign" and st_["place"]["l"] == 1 and [e["k"] for e in st_["place"]["p"]] == ["deref"]:
+                repl.append((bb_, clean(tm.rvalue(st_["rv"], bb_, pos_)), b.where(bb_)))
+    # the verdict "no element is an array": all(|v| !v.is_array()) is true / any(|v| v.is_array()) is false
+    oka = False
+    why = "no test of the elements for arrays found"
+    for sbb, dt, names, t in switches(b, tm):
+        if names is not None:
+            continue
+        d = clean(dt)
+        neg = False
+        while d[0] == "un" and d[1] == "Not":
+            d, neg = d[2], not neg
+        if not (d[0] == "call" and len(d[2]) == 2 and (itm(d[1], "all") or itm(d[1], "any")) and d[2][1][0] == "closure"):
+            continue
+        recv = d[2][0]
+        if not (contains(recv, lambda q: q == TOP) and not [x for x in calls_in(recv) if re.search(TRUNC, x[1])]):
+            why = "the test does not run over all elements of the array"
+            continue
+        crt = clean(Terms(F.need(d[2][1][1])).return_term())
+        cneg = False
+        while crt[0] == "un" and crt[1] == "Not":
+            crt, cneg = crt[2], not cneg
+        if not (crt[0] == "call" and crt[1].endswith("Value::is_array") and crt[2] == (("arg", 2),)):
+            why = "the per-element test is not is_array()"
+            continue
+        # value of the verdict that means "no element is an array"
+        if itm(d[1], "all") and cneg:
+            none_nested_when = True
+        elif itm(d[1], "any") and not cneg:
+            none_nested_when = False
+        else:
+            why = "the test `%s(|v| %sv.is_array())` does not decide whether some element is an array" % ("all" if itm(d[1], "all") else "any", "!" if cneg else "")
+            continue
+        if neg:
+            none_nested_when = not none_nested_when
+        f_, tr_ = bool_targets(t)
+        skip_edge = tr_ if none_nested_when else f_
+        work_edge = f_ if none_nested_when else tr_
+        skip_region = b.reachable(start=skip_edge)
+        work_region = b.reachable(start=work_edge)
+        skips = not any(bb_ in skip_region for bb_, _, _ in repl) and all(deep_strip(v) == OK_UNIT for _, v in region_value(b, (sbb, skip_edge)))
+        works = any(bb_ in work_region for bb_, _, _ in repl)
+        oka = skips and works
+        if not oka:
+            why = "the state is %s when no element is an array and %s otherwise" % ("left alone" if skips else "replaced or an error returned", "replaced" if works else "not replaced")
+    ctx.check(oka, "short-circuit", "the early return is not taken exactly when all elements are non-arrays (`all(|v| !v.is_array())` => Ok(())): %s" % why, b.where(), detail="no nested array => unchanged, Ok(())")
+    # the flattened vector: one pass over all elements; an array contributes all its elements, anything else itself
+    okp, whyp, flat = False, "no loop over the elements of the array", None
+    for h, _bl in b.natural_loops():
+        rows = [r for r in iteration_table(b, h) if r.kind != "diverge"]
+        if not rows or not all(r.conds for r in rows):
+            continue
+        d0 = clean(rows[0].conds[0][0])
+        if not (d0[0] == "discr" and d0[1][0] == "call" and re.search(r"::next$", d0[1][1]) and contains(d0[1], lambda q: q == ("call", "std::slice::<impl [T]>::iter_mut", (TOP,)))):
+            continue
+        if [x for x in calls_in(d0[1]) if re.search(TRUNC, x[1])] or not all(clean(r.conds[0][0]) == d0 for r in rows):
+            whyp = "the pass does not visit every element"
+            continue
+        ELEM = d0[1]
+        SUB = ("call", "std::slice::<impl [T]>::iter_mut", (("field", ("variant", ELEM, "Array"), "0"),))
+        okp, whyp = True, ""
+        n_arr = n_other = 0
+        for r in rows:
+            lab = [l for dt, l, _ in r.conds[:1]]
+            some = "Some" in (set(lab[0][1]) if isinstance(lab[0], tuple) else {lab[0]})
+            if not some:
+                continue
+            kind = None
+            for dt, l, _ in r.conds[1:]:
+                if clean(dt) == ("discr", ELEM):
+                    names_ = set(l[1]) if isinstance(l, tuple) else {l}
+                    kind = "array" if names_ == {"Array"} else ("other" if "Array" not in names_ else None)
+            adds = [(k, clean(v)) for bb_, k, v in r.sites if k and re.search(r"Vec::<T, A>::push$|Extend<.*>>::extend$|Vec::<T, A>::(append|extend_from_slice)$", k)]
+            if kind == "other":
+                n_other += 1
+                if not (r.kind == "back" and len(adds) == 1 and adds[0][0].endswith("::push") and adds[0][1][2][1] == ELEM):
+                    okp, whyp = False, "an element that is not an array is not pushed as it is"
+                else:
+                    flat = flat or adds[0][1][2][0]
+            elif kind == "array":
+                n_arr += 1
+                if r.kind == "back" and len(adds) == 1 and adds[0][0].endswith("::extend"):
+                    src = adds[0][1][2][1]
+                    while src[0] == "call" and len(src[2]) == 1 and re.search(r"::into_iter$", src[1]):
+                        src = src[2][0]
+                    if src != SUB:
+                        okp, whyp = False, "a nested array is not appended whole: extend(%s)" % short(src)[:80]
+                elif r.kind == "cycle" or (r.kind == "back" and not adds):
+                    # an inner loop over the nested array pushing each of its elements
+                    inner = [h2 for h2, bl2 in b.natural_loops() if h2 != h and set(bl2) < set(_bl)]
+                    oki = False
+                    for h2 in inner:
+                        irows = [x for x in iteration_table(b, h2) if x.kind != "diverge"]
+                        i0 = clean(irows[0].conds[0][0]) if irows and irows[0].conds else None
+                        if i0 and i0[0] == "discr" and contains(i0[1], lambda q: q == SUB) and not [x for x in calls_in(i0[1]) if re.search(TRUNC, x[1])]:
+                            backs = [x for x in irows if x.kind == "back" and x.conds[0][1] == "Some"]
+                            oki = bool(backs) and all(len([1 for bb_, k, v in x.sites if k and k.endswith("::push")]) == 1 and [clean(v)[2][1] for bb_, k, v in x.sites if k and k.endswith("::push")] == [i0[1]] for x in backs)
+                    if not oki:
+                        okp, whyp = False, "the elements of a nested array are not all pushed"
+                else:
+                    okp, whyp = False, "a nested array is not moved into the flattened vector"
+            else:
+                okp, whyp = False, "an element is handled without looking whether it is an array"
+        if okp and not (n_arr >= 1 and n_other >= 1):
+            okp, whyp = False, "expected one arm for nested arrays and one for other elements"
+        break
+    ctx.check(okp, "moves-every-element", "nested arrays' elements and plain elements are not all pushed to one flattened vector in order: %s" % whyp, b.where(), detail="for v1 {Array => all of its elements; other => itself}")
+    ctx.check(len(repl) == 1 and flat is not None and contains(repl[0][1], lambda q: q == flat), "swapped-in", "the flattened array is not swapped into the query state", b.where())
+    # non-array input => invariant error
+    okx = False
+    for sbb, dt, names, t in switches(b, tm):
+        if clean(dt) == ("discr", ("arg", 1)) and names and "Array" in names.values():
+            arr_t = switch_target(t, names, "Array")
+            others = set([x[1] for x in t["targets"]] + [t["otherwise"]]) - {arr_t}
+            okx = bool(others)
+            for o in others:
+                vals = region_value(b, (sbb, o))
+                okx = okx and bool(vals) and all(is_err_value(deep_strip(v)) and calls_in(v, OPS + "package_invariant_error") for _, v in vals)
+    ctx.check(okx, "non-array=>invariant-error", "a non-array state is not reported with package_invariant_error", b.where())
     # json_array_op
-    ob = F.need(OPS + "json_array_op")
-    otm = Terms(ob)
-    calls = [c for c in ob.calls() if (c.callee or "").endswith("Fn::call") or c.callee in ("<indirect>", "<fnptr>")]
-    nx = [c for c in ob.calls() if c.func.get("method") == "next"]
-    oko = len(calls) == 1 and len(nx) == 1 and innermost_loop(ob, calls[0].bb) is not None
-    if oko:
-        recv = deep_strip(otm.operand(nx[0].args[0], nx[0].bb))
-        oko = bool(calls_in(recv, "iter_mut")) and not [x for x in calls_in(recv) if re.search(r"Iterator>?::(take|skip|filter|step_by)$", x[1])]
-    ctx.check(oko, "op-on-every-query", "the plugin operation is not applied to every element of the query array", ob.where(), detail="for q in queries.iter_mut() { op(q) }")
-    me = [c for c in ob.calls() if c.callee and c.callee.endswith("Result::<T, E>::map_err")]
-    okm = len(me) == 1
-    if okm:
-        cl = otm.operand(me[0].args[1], me[0].bb)
-        crt = nosite(deep_strip(Terms(F.need(cl[1])).return_term())) if cl[0] == "closure" else None
-        okm = crt is not None and crt[0] == "call" and crt[1].endswith("package_error") and unmut(crt[2][1]) == ("arg", 2)
-        # the request packaged is the same q the op was applied to
-        q_op = root_local(ob, calls[0].args[1]) if oko else None
-        okm = okm and try_propagation(ob, me[0], otm)["kind"] == "propagated"
-    ctx.check(okm, "failure=>packaged-with-its-query", "a plugin failure is not packaged with package_error(q, e) of the failing query and returned", ob.where(), detail="map_err(|e| package_error(q, e))?")
-    fl = [c for c in ob.calls() if c.callee == OPS + "json_array_flatten_in_place"]
-    ctx.check(len(fl) == 1 and unmut(nosite(deep_strip(otm.operand(fl[0].args[0], fl[0].bb)))) == ("arg", 1), "then-flatten", "the state is not flattened after the operation", ob.where())
+    _json_array_op(ctx, F)
     # json_array_flatten: objects pushed, anything else => error
     fb = F.need(OPS + "json_array_flatten")
     ftm = Terms(fb)
@@ -195,6 +300,76 @@ def R2_flatten(ctx):
                 if s["k"] == "assign" and s["rv"]["k"] == "agg" and s["rv"].get("variant") == "Some" and "Value" in fb.locals[s["place"]["l"]]["ty"]:
                     err_assign.append(bb)
     ctx.check(bool(err_assign), "non-object-recorded", "a non-object element inside the array is not recorded as an error", fb.where())
+
+
+def _json_array_op(ctx, F):
+    """op applied to every query of the array in order, a failure returned as package_error(q, e) of that query, then flatten"""
+    ob = F.need(OPS + "json_array_op")
+    otm = Terms(ob)
+    TOP = ("field", ("variant", ("arg", 1), "Array"), "0")
+    TRUNC = r"Iterator>?::(take|skip|filter|step_by|rev|take_while|skip_while|filter_map)$"
+    is_op_call = lambda c: (c.callee or "").endswith("Fn::call") or c.callee in ("<indirect>", "<fnptr>") or (c.func.get("method") in ("call", "call_mut", "call_once") and "{closure" not in (c.callee or ""))
+    oko = okm = False
+    whyo = "the call of the plugin operation was not found"
+    for body in tree_of(F, ob.path):
+        btm = otm if body is ob else Terms(body)
+        calls = [c for c in body.calls() if is_op_call(c)]
+        if len(calls) != 1:
+            continue
+        c = calls[0]
+        q = clean(btm.operand(c.args[1], c.bb))
+        q = q[1][0] if q[0] == "tuple" and len(q[1]) == 1 else q
+        if body is ob:
+            # loop form: q is the element of queries.iter_mut()
+            lp = innermost_loop(ob, c.bb)
+            oko = lp is not None and q[0] == "call" and re.search(r"::next$", q[1]) is not None and contains(q, lambda x: x == ("call", "std::slice::<impl [T]>::iter_mut", (TOP,))) and not [x for x in calls_in(q) if re.search(TRUNC, x[1])]
+            whyo = "" if oko else "op is not called on each element of queries.iter_mut()"
+            me = [m for m in ob.calls() if m.callee and m.callee.endswith("Result::<T, E>::map_err")]
+            if len(me) == 1:
+                cl = otm.operand(me[0].args[1], me[0].bb)
+                crt = clean(Terms(F.need(cl[1])).return_term()) if cl[0] == "closure" else None
+                recv = clean(otm.operand(me[0].args[0], me[0].bb))
+                okm = crt is not None and crt[0] == "call" and crt[1].endswith("package_error") and crt[2][1] == ("arg", 2) and recv == clean(otm.call_term(c.term, c.bb))
+                if okm and cl[2]:
+                    okm = clean(cl[2][0]) == q and crt[2][0] == ("field", ("arg", 1), "0")
+                okm = okm and try_propagation(ob, me[0], otm)["kind"] == "propagated"
+            else:
+                okm = none_is_fine = False
+                rows = [r for r in iteration_table(ob, lp[0]) if r.kind == "return"] if lp else []
+                callt = clean(otm.call_term(c.term, c.bb))
+                errs = [r for r in rows if any(clean(dt) == ("discr", callt) and (l == "Err" or (isinstance(l, tuple) and set(l[1]) == {"Err"})) for dt, l, _ in r.conds)]
+                okm = bool(errs) and all(_is_packaged(clean(r.ret), q) for r in errs)
+        else:
+            # closure form: queries.iter_mut().try_for_each(|q| ...)
+            tf = [x for x in ob.calls() if x.callee and itm(x.callee, "try_for_each")]
+            if len(tf) != 1:
+                whyo = "op is called in a closure that is not run by try_for_each"
+                continue
+            recv = clean(otm.operand(tf[0].args[0], tf[0].bb))
+            cl = otm.operand(tf[0].args[1], tf[0].bb)
+            oko = q == ("arg", 2) and cl[0] == "closure" and cl[1] == body.path and contains(recv, lambda x: x == ("call", "std::slice::<impl [T]>::iter_mut", (TOP,))) and not [x for x in calls_in(recv) if re.search(TRUNC, x[1])] and not body.natural_loops()
+            whyo = "" if oko else "op is not called on each element of queries.iter_mut()"
+            callt = clean(btm.call_term(c.term, c.bb))
+            rows = [r for r in table(body, max_paths=5000) if r.end == "return"]
+            errs = [r for r in rows if any(clean(k) == callt and v == "Err" for k, v in r.sel.items())]
+            oks = [r for r in rows if any(clean(k) == callt and v == "Ok" for k, v in r.sel.items())]
+            okm = bool(errs) and all(_is_packaged(clean(r.ret), ("arg", 2)) for r in errs) and bool(oks) and all(result_variant(r.ret) == "Ok" for r in oks)
+            okm = okm and try_propagation(ob, tf[0], otm)["kind"] == "propagated"
+        break
+    ctx.check(oko, "op-on-every-query", "the plugin operation is not applied to every element of the query array: %s" % whyo, ob.where(), detail="for q in queries.iter_mut() { op(q) }")
+    ctx.check(okm, "failure=>packaged-with-its-query", "a plugin failure is not packaged with package_error(q, e) of the failing query and returned", ob.where(), detail="map_err(|e| package_error(q, e))?")
+    fl = [c for c in ob.calls() if c.callee == OPS + "json_array_flatten_in_place"]
+    ctx.check(len(fl) == 1 and clean(otm.operand(fl[0].args[0], fl[0].bb)) == ("arg", 1), "then-flatten", "the state is not flattened after the operation", ob.where())
+
+
+def _is_packaged(ret, q):
+    """Err(package_error(q, e))"""
+    if ret is None:
+        return False
+    v = ret
+    if v[0] == "agg" and v[2] == "Err" and v[3]:
+        v = v[3][0][1]
+    return v[0] == "call" and v[1].endswith("package_error") and len(v[2]) == 2 and v[2][0] == q
 
 
 def R3_odometer(ctx):
@@ -235,91 +410,322 @@ def R3_odometer(ctx):
     only = none in alts and len(alts) == 2
     ctx.check(cond_ok and only, "from:empty-set=>exhausted", "the counter is not `None` exactly when some set is empty (the product over zero sets has one combination, over an empty set none): %s" % short(pos)[:160], b.where(), detail="sets.iter().any(is_empty) => None")
     # ---- next
+    odometer_next(ctx, F)
+
+
+SETS = ("field", ("arg", 1), "sets")
+POS = ("field", ("arg", 1), "pos")
+FINAL = ("field", ("arg", 1), "final_pos")
+NSETS = ("call", "std::vec::Vec::<T, A>::len", (SETS,))
+NONE_ = ("agg", "std::option::Option", "None", ())
+
+
+def _some(x):
+    return ("agg", "std::option::Option", "Some", (("0", x),))
+
+
+def _zero_sets_term(t):
+    """`sets.is_empty()` / `sets.len() == 0` / `n == 0`"""
+    t = clean(t)
+    if t[0] == "phi":
+        # the flag as seen after the loop: its initial value, or `true` from the path that finished (that path is told apart
+        # by its own assignment and never reaches this test with the initial value)
+        alts = [a for a in t[1] if a != ("const", "bool", True)]
+        return len(alts) == 1 and len(t[1]) == 2 and _zero_sets_term(alts[0])
+    if t == ("call", "std::vec::Vec::<T, A>::is_empty", (SETS,)):
+        return True
+    c = as_cmp(t)
+    return bool(c) and c[0] == "Eq" and {clean(c[1]), clean(c[2])} == {NSETS, ("const", "usize", 0)}
+
+
+def odometer_next(ctx, F):
+    """the step function of the iterator, read as a transition system: which of the spellings is used does not matter"""
     nb = F.need("<%s<'_, T> as std::iter::Iterator>::next" % MS)
     ntm = Terms(nb)
+    # (1) exhausted => None, state untouched
     sel = None
     for sbb, dt, names, t in switches(nb, ntm):
-        if unmut(nosite(deep_strip(dt))) == ("discr", ("field", ("arg", 1), "pos")) and names:
-            sel = (sbb, switch_target(t, names, "None"), switch_target(t, names, "Some"))
+        d_ = clean(dt)
+        if d_[0] == "discr" and d_[1][0] == "call" and d_[1][1].endswith("Try>::branch") and len(d_[1][2]) == 1:
+            d_ = ("discr", d_[1][2][0])
+        if d_ == ("discr", POS) and names:
+            vs = set(names.values())
+            if "None" in vs:
+                sel = (sbb, switch_target(t, names, "None"))
+            elif "Break" in vs:
+                sel = (sbb, switch_target(t, names, "Break"))
     okn = sel is not None
     if okn:
         vals = region_value(nb, (sel[0], sel[1]))
-        okn = bool(vals) and all(deep_strip(v) == none for _, v in vals)
-    ctx.check(okn, "next:exhausted=>None", "an exhausted iterator does not return None", nb.where())
-    # emitted combination
-    ccl = [p for p in F.bodies if p.startswith(nb.path + "::{closure")]
+        region = nb.reachable(start=sel[1])
+        writes = [1 for bb in region for st_ in nb.blocks[bb]["stmts"] if st_["k"] == "assign" and st_["place"]["p"] and st_["place"]["p"][0]["k"] == "deref"]
+        # (`self.pos.as_ref()?` in a function returning Option: the residual of an Option is always None)
+        is_none = lambda v: deep_strip(v) == NONE_ or (deep_strip(v)[0] == "agg" and deep_strip(v)[1].endswith("option::Option") and deep_strip(v)[2] == "None") or (nosite(v)[0] == "call" and re.match(r"<std::option::Option<T> as std::ops::FromResidual", nosite(v)[1]) is not None and nb.locals[0]["ty"].startswith("std::option::Option<"))
+        okn = bool(vals) and all(is_none(v) for _, v in vals) and (sel[0] not in region) and not writes
+    ctx.check(okn, "next:exhausted=>None", "an exhausted iterator does not return None (leaving its state alone)", nb.where())
+    # (2) the emitted combination, read position by position
     oke = False
-    for p in ccl:
-        crt = unmut(nosite(deep_strip(Terms(F.bodies[p]).return_term())))
-        # sets[i][*j]  with (j, i) = closure arg
-        if crt[0] == "call" and crt[1].endswith("::index") and crt[2][0][0] == "call" and crt[2][0][1].endswith("::index"):
-            inner = crt[2][0]
-            oke = inner[2][1] == ("field", ("arg", 2), "1") and crt[2][1] == ("field", ("arg", 2), "0") and inner[2][0] == ("field", ("arg", 1), "0")
-    ctx.check(oke, "next:emits-current-position", "the emitted combination is not sets[i][pos[i]] for every i", nb.where(), detail="sets[i][pos[i]]")
-    # advance
-    lt = None
-    eq = None
-    for sbb, dt, names, t in switches(nb, ntm):
-        c = as_cmp(nosite(deep_strip(dt)))
-        if not c:
+    got = None
+    for e in elementwise_builds(nb):
+        if e["form"] != "map":
             continue
-        c = canon_cmp(c)
-        if c[0] == "Lt" and contains(c[2], lambda s: s[0] == "field" and s[2] == "final_pos"):
-            lt = (sbb, c, t)
-        if c[0] == "Eq":
-            eq = (sbb, c, t)
-    oka = lt is not None
-    if oka:
-        sbb, c, t = lt
-        i1 = [x for x in subterms(c[1]) if x[0] == "call" and x[1].endswith("::index")]
-        i2 = [x for x in subterms(c[2]) if x[0] == "call" and x[1].endswith("::index")]
-        oka = bool(i1) and bool(i2) and i1[0][2][1] == i2[0][2][1]
-        f_, tr_ = bool_targets(t)
-        # on the true edge: one += 1 on next_pos[idx], then leave the loop
-        incs = []
-        lp = innermost_loop(nb, sbb)
-        region = nb.reachable(start=tr_, removed_blocks=[lp[0]] if lp else [])
-        for bb in sorted(region):
-            for pos_, st_ in enumerate(nb.blocks[bb]["stmts"]):
-                # a store `*p = *p + c` (debug: through a checked-add temporary; release: a plain Add)
-                if st_["k"] == "assign" and st_["place"]["p"] and st_["place"]["p"][0]["k"] == "deref":
-                    v_ = nosite(deep_strip(ntm.rvalue(st_["rv"], bb, pos_)))
-                    if v_[0] == "bin" and v_[1] == "Add" and v_[3][0] == "const":
-                        incs.append(v_[3])
-        oka = oka and incs == [("const", "usize", 1)] and (lp is None or lp[0] not in nb.reachable(start=tr_, removed_blocks=[]) or True)
-        leaves = lp is not None and lp[0] not in nb.reach_from_succs(tr_, removed_blocks=[b2 for b2 in nb.reachable(start=f_) if False])
-    ctx.check(oka, "next:increment-by-one", "the first position below its final value is not incremented by exactly 1 (`pos[i] < final_pos[i]` => pos[i] += 1)", nb.where(), detail="pos[i] < final[i] => pos[i] += 1; break")
-    oke2 = eq is not None
-    if oke2:
-        sbb, c, t = eq
-        A = Arith(F)
-        ln = ("call", "std::vec::Vec::<T, A>::len", (("field", ("arg", 1), "sets"),))
-        A.symbols = {unmut(ln): "n"}
-        sides = [A.ev(unmut(c[1])), A.ev(unmut(c[2]))]
-        want = Ratio(Poly.sym("n")) - Ratio(Poly.const(1))
-        oke2 = any(s.equals(want) for s in sides)
-    ctx.check(oke2, "next:finish-after-last", "the iterator does not finish when the last position (index len-1) is exhausted", nb.where(), detail="idx == len - 1 => finished")
-    # reset to constant 0 of the passed positions (take(idx + 1))
-    resets = []
-    for bb, blk in enumerate(nb.blocks):
-        for pos_, s in enumerate(blk["stmts"]):
-            if s["k"] == "assign" and s["place"]["p"] and s["place"]["p"][0]["k"] == "deref" and s["rv"]["k"] == "use" and s["rv"]["op"]["k"] == "const" and s["rv"]["op"].get("int") is not None and nb.locals[s["place"]["l"]]["ty"].startswith("&mut usize"):
-                resets.append((bb, s["rv"]["op"]["int"]))
-    okr = len(resets) == 1 and resets[0][1] == 0 and innermost_loop(nb, resets[0][0]) is not None
-    ctx.check(okr, "next:reset-lower-to-zero", "passed positions are not reset to the constant 0: %s" % resets, nb.where(), detail="*r = 0")
-    # finished starts as sets.is_empty()
-    fin = None
-    for l, ds in nb.defs.items():
-        if nb.locals[l]["ty"] == "bool" and nb.local_name(l) == "finished" or (nb.locals[l]["ty"] == "bool" and len([d for d in ds if not d[2]]) >= 2 and any(d[1] != "term" and nb.blocks[d[0]]["stmts"][d[1]]["rv"]["k"] == "use" and nb.blocks[d[0]]["stmts"][d[1]]["rv"]["op"].get("bool") is True for d in ds)):
-            fin = l
-    okz = False
-    if fin is not None:
-        for (bb, pos_, proj) in nb.defs[fin]:
-            t = ntm.call_term(nb.blocks[bb]["term"], bb) if pos_ == "term" else ntm.rvalue(nb.blocks[bb]["stmts"][pos_]["rv"], bb, pos_)
-            t = unmut(nosite(deep_strip(t)))
-            if t == ("call", "std::vec::Vec::<T, A>::is_empty", (("field", ("arg", 1), "sets"),)):
-                okz = True
-    ctx.check(okz, "next:zero-sets=>one-combination", "with zero sets the iterator does not finish after its single (empty) combination (`finished` must start as sets.is_empty())", nb.where(), detail="finished = sets.is_empty()")
+        site = e["site"]
+        pf = positional_form(F, nosite(deep_strip(ntm.operand(site.args[0], site.bb))))
+        if pf is None:
+            continue
+        got = pf
+        oke = pf[0] == ("at", ("at", SETS, ("i",)), ("at", POS, ("i",))) and pf[1] <= {NSETS, ("len", POS), ("len", SETS)}
+    if not oke and got is None:
+        # loop form: for i in 0..n { result.push(sets[i][pos[i]]) }
+        for e in elementwise_builds(nb):
+            if e["form"] == "loop":
+                src = positional_form(F, nosite(deep_strip(e["src"])))
+                if src is not None and len(e["values"]) == 1:
+                    v = proj_simplify(rewrite(clean(e["values"][0]), lambda y: src[0] if y == ("elem",) else None))
+                    got = (v, src[1])
+                    oke = v == ("at", ("at", SETS, ("i",)), ("at", POS, ("i",))) and src[1] <= {NSETS, ("len", POS), ("len", SETS)}
+    ctx.check(oke, "next:emits-current-position", "the emitted combination is not sets[i][pos[i]] for every i: %s" % (short(got[0])[:120] if got else None), nb.where(), detail="sets[i][pos[i]]")
+    # (3) the advance loop, in `next` or in a helper extracted from it
+    place = None
+    with no_inline():
+        cands = [(nb, None)]
+        known = known_functions()
+        for c in nb.calls():
+            if c.callee in F.bodies and known and c.callee not in known and "{closure" not in c.callee:
+                cands.append((F.bodies[c.callee], c))
+        for body, via in cands:
+            for h, _blocks in body.natural_loops():
+                try:
+                    rows = iteration_table(body, h)
+                except (TooManyPaths, AnchorMissing):
+                    continue
+                if via is not None:
+                    tmc = Terms(nb)
+                    actuals = tuple(tmc.operand(a, via.bb) for a in via.args)
+                    sub = lambda t, actuals=actuals: substitute_args(t, actuals)
+                else:
+                    sub = lambda t: t
+                idx = _range_index(rows, sub)
+                if idx is not None:
+                    place = (body, via, h, rows, sub, idx)
+        if not ctx.check(place is not None, "next:advance-loop", "no loop over the positions 0..sets.len() found in next (or in a helper it calls)", nb.where(), detail="for idx in 0..sets.len()"):
+            return
+        _advance_rows(ctx, F, nb, *place)
+
+
+def _range_index(rows, sub):
+    """the loop variable if the loop runs over 0..sets.len(): the term of the range's next() call"""
+    found = set()
+    for r in rows:
+        if r.kind == "diverge" and not r.conds:
+            continue
+        if not r.conds:
+            return None
+        # the first decision of every turn is the range's next()
+        d = clean(sub(r.conds[0][0]))
+        if not (d[0] == "discr" and d[1][0] == "call" and re.search(r"::next$", d[1][1])):
+            return None
+        rng = [x for x in subterms(d[1]) if x[0] == "agg" and x[1].endswith("ops::Range")]
+        if not (rng and dict(rng[0][3]).get("start") == ("const", "usize", 0) and dict(rng[0][3]).get("end") == NSETS) or calls_in(d[1], "take") or calls_in(d[1], "rev") or calls_in(d[1], "skip"):
+            return None
+        found.add(d[1])
+    return list(found)[0] if len(found) == 1 else None
+
+
+def _advance_rows(ctx, F, nb, body, via, head, rows, sub, idx_call):
+    C = lambda t: clean(sub(t))
+    IDX = idx_call
+    AT_POS, AT_FIN = ("at", POS, IDX), ("at", FINAL, IDX)
+    A = Arith(F, {IDX: "i", NSETS: "n"})
+    last_form = Ratio(Poly.sym("i")) - Ratio(Poly.sym("n")) + Ratio(Poly.const(1))
+
+    def classify(r):
+        """(range yields an index?, pos[idx] < final[idx]?, idx is the last position?) known on this path; None = unknown"""
+        some = lt = last = None
+        bad = []
+        for dt, label, bb in r.conds:
+            d = C(dt)
+            if d == ("discr", IDX):
+                names = set(label[1]) if isinstance(label, tuple) else {label}
+                some = "Some" in names
+        for op, a, b in r.facts:
+            a, b = C(a), C(b)
+            if {a, b} == {AT_POS, AT_FIN}:
+                if (op, a, b) == ("Lt", AT_POS, AT_FIN):
+                    lt = True
+                elif (op, a, b) == ("Le", AT_FIN, AT_POS):
+                    lt = False
+                else:
+                    bad.append((op, short(a), short(b)))
+            elif op in ("Eq", "Ne") and (contains(a, lambda q: q == IDX) or contains(b, lambda q: q == IDX)):
+                try:
+                    dlt = A.ev(a) - A.ev(b)
+                except Exception:
+                    bad.append((op, short(a)[:60], short(b)[:60]))
+                    continue
+                if dlt.equals(last_form) or (Ratio(Poly.const(0)) - dlt).equals(last_form):
+                    last = op == "Eq"
+                else:
+                    bad.append((op, short(a)[:60], short(b)[:60]))
+        return some, lt, last, bad
+
+    # stores of one row, split into writes into the working vector and the final state update
+    def effects(r):
+        inc, zero, other, state = [], [], [], []
+        for ptr, val in r.stores:
+            pt, v = C(ptr), C(val)
+            if pt == POS:
+                state.append(nosite(sub(val)))
+                continue
+            if pt[0] == "at" and pt[1] == POS:
+                if v == ("const", "usize", 0):
+                    zero.append(pt[2])
+                elif v == ("bin", "Add", pt, ("const", "usize", 1)) and pt[2] == IDX:
+                    inc.append(pt[2])
+                    rp = nosite(sub(ptr))
+                    if rp[0] == "call" and len(rp[2]) == 2:
+                        working.add(rp[2][0])
+                else:
+                    other.append((short(pt)[:60], short(v)[:60]))
+                continue
+            # `for r in pos.iter_mut().take(idx + 1) { *r = 0 }`: the pointer is the element of an iterator over the vector
+            if v == ("const", "usize", 0) and pt[0] == "call" and re.search(r"::next$", pt[1]) and _prefix_upto(F, pt, IDX):
+                zero.append(("prefix", IDX))
+                continue
+            other.append((short(pt)[:60], short(v)[:60]))
+        return inc, zero, other, state
+
+    working = set()  # the vector that is advanced in place (raw term, with its mutation marker)
+    n_inc = n_fin = n_cont = 0
+    bad_rows = []
+    flag_rows = []
+    for r in rows:
+        if r.kind == "diverge":
+            continue
+        some, lt, last, bad = classify(r)
+        inc, zero, other, state = effects(r)
+        leaves = r.kind == "return"
+        where = "idx=%s lt=%s last=%s kind=%s" % (some, lt, last, r.kind)
+        if bad:
+            bad_rows.append(("unrecognised comparison %s" % bad[:2], where))
+            continue
+        if other:
+            bad_rows.append(("unexpected write %s" % other[:2], where))
+            continue
+        if some is None:
+            # the inner fill loop's own rows are judged through the outer rows that run into them ('cycle')
+            bad_rows.append(("path does not consult the range", where))
+            continue
+        if not some:
+            # range exhausted: nothing may change; the flag keeps its initial value
+            if inc or zero or not leaves:
+                bad_rows.append(("the position changes after the range is exhausted", where))
+            flag_rows.append((r, "initial", state))
+            continue
+        if lt is True:
+            if not (inc == [IDX] and not zero and leaves):
+                bad_rows.append(("pos[idx] < final[idx] does not lead to exactly pos[idx] += 1 and leaving the loop (inc=%d zero=%d leaves=%s)" % (len(inc), len(zero), leaves), where))
+            n_inc += 1
+            flag_rows.append((r, "initial", state))
+        elif lt is False and last is True:
+            if inc or not leaves:
+                bad_rows.append(("the last position at its final value does not finish the iterator", where))
+            n_fin += 1
+            flag_rows.append((r, "finished", state))
+        elif lt is False and last is False:
+            # continue with the next position: this one is rewound, nothing is incremented
+            covers = any(z == IDX or z == ("prefix", IDX) for z in zero)
+            if r.kind == "back":
+                # the zeroing may have happened in an inner loop on the way (then a sibling 'cycle' row shows it)
+                sib = [x for x in rows if x.kind == "cycle" and classify(x)[:3] == (some, lt, last)]
+                covers = covers or any(any(z == ("prefix", IDX) for z in effects(x)[1]) and not effects(x)[0] and not effects(x)[2] for x in sib)
+            elif r.kind == "cycle":
+                covers = covers or True  # judged with its 'back' sibling
+            if inc or leaves or not covers:
+                bad_rows.append(("a position at its final value (not the last one) is not rewound to 0 before moving on (inc=%d leaves=%s rewound=%s)" % (len(inc), leaves, covers), where))
+            n_cont += 1
+        else:
+            bad_rows.append(("path decides without comparing pos[idx] with final_pos[idx] (and idx with the last index)", where))
+    ctx.check(not bad_rows and n_inc >= 1, "next:increment-by-one", "the first position below its final value is not incremented by exactly 1 (`pos[i] < final_pos[i]` => pos[i] += 1; stop): %s" % (bad_rows[:2],), body.where(), detail="pos[i] < final[i] => pos[i] += 1; break")
+    ctx.check(not bad_rows and n_fin >= 1, "next:finish-after-last", "the iterator does not finish exactly when the last position (index len-1) is at its final value: %s" % (bad_rows[:2],), body.where(), detail="idx == len - 1 => finished")
+    ctx.check(not bad_rows and n_cont >= 1, "next:reset-lower-to-zero", "passed positions are not rewound to 0: %s" % (bad_rows[:2],), body.where(), detail="pos[i] = 0 for the positions passed")
+    # (4) the state after the step: None when finished, else the advanced vector; `finished` starts as "there are no sets"
+    okz = True
+    why = ""
+    if via is None:
+        for r, flag, state in flag_rows:
+            if len(state) != 1:
+                okz, why = False, "a path stores self.pos %d times" % len(state)
+                continue
+            st_ = state[0]
+            is_none = nosite(deep_strip(st_)) == NONE_ or st_ == NONE_
+            zero_conds = [cond_truth(label) for dt, label, bb in r.conds if not isinstance(label, tuple) and _zero_sets_term(sub(dt))]
+            if flag == "finished":
+                if not is_none:
+                    okz, why = False, "a finished iterator keeps a position"
+            else:
+                # initial flag: None exactly on the paths where `sets` was found empty
+                if len(zero_conds) != 1 or zero_conds[0] != is_none or (not is_none and clean(st_) != _some(POS)):
+                    okz, why = False, "the stored state does not follow `no sets => finished`: tests=%s stores None=%s" % (zero_conds, is_none)
+                elif not is_none and not (len(working) == 1 and st_[0] == "agg" and st_[3] and st_[3][0][1] in working):
+                    okz, why = False, "the vector stored as the new state is not the one that was advanced"
+    else:
+        # helper form: it returns (advanced vector, finished); the caller stores None / Some(vector) by that flag
+        for r, flag, state in flag_rows:
+            rt = nosite(sub(r.ret)) if r.ret is not None else None
+            if rt is None or rt[0] != "tuple" or len(rt[1]) != 2:
+                okz, why = False, "the helper does not return (position, finished)"
+                continue
+            fl = rt[1][1]
+            if flag == "finished":
+                okz = okz and fl == ("const", "bool", True)
+            else:
+                okz = okz and _zero_sets_term(fl)
+            okz = okz and clean(rt[1][0]) == POS and len(working) == 1 and rt[1][0] in working
+        if okz:
+            okz, why = _caller_stores_by_flag(F, nb, via), "next does not store None when the helper reports finished and Some(position) otherwise"
+    ctx.check(okz and bool(flag_rows), "next:zero-sets=>one-combination", "the state after a step is not `None if finished else Some(advanced)` with finished starting as sets.is_empty(): %s" % why, body.where(), detail="finished = sets.is_empty()")
+
+
+def _prefix_upto(F, ptr, IDX):
+    """ptr is the element of `pos.iter_mut().take(idx + 1)` (or of `pos[..=idx].iter_mut()`): a prefix that includes idx"""
+    A = Arith(F, {IDX: "i"})
+    for x in subterms(ptr):
+        if x[0] == "call" and itm(x[1], "take") and len(x[2]) == 2:
+            base = x[2][0]
+            okb = contains(base, lambda q: q == POS) and not [y for y in calls_in(base) if re.search(r"Iterator>?::(skip|rev|step_by|filter)$", y[1])]
+            try:
+                return okb and A.ev(x[2][1]).equals(Ratio(Poly.sym("i")) + Ratio(Poly.const(1)))
+            except Exception:
+                return False
+    return False
+
+
+def _caller_stores_by_flag(F, nb, via):
+    tm = Terms(nb)
+    call = clean(tm.call_term(via.term, via.bb))
+    sw = [(sbb, t) for sbb, dt, names, t in switches(nb, tm) if names is None and clean(dt) == ("field", call, "1")]
+    if len(sw) != 1:
+        return False
+    sbb, t = sw[0]
+    f_, tr_ = bool_targets(t)
+    if f_ is None or f_ == tr_:
+        return False
+    ok = True
+    for truth, dead in ((True, f_), (False, tr_)):
+        ptm = partitioned_terms(nb, [(sbb, dead)])
+        vals = []
+        for bb, blk in enumerate(nb.blocks):
+            if bb not in ptm.live or blk["cleanup"]:
+                continue
+            for pos, st_ in enumerate(blk["stmts"]):
+                if st_["k"] == "assign" and st_["place"]["p"] and st_["place"]["p"][0]["k"] == "deref" and clean(ptm.place(st_["place"], bb, pos)) == POS:
+                    v = clean(ptm.rvalue(st_["rv"], bb, pos))
+                    if v[0] != "undef":
+                        vals.append(v)
+        want = NONE_ if truth else _some(("field", call, "0"))
+        ok = ok and vals == [want]
+    return ok
 
 
 RULES = [R1_plugin, R2_flatten, R3_odometer]
